@@ -86,6 +86,16 @@ func RawCases() []rawCase {
 	return rawCases
 }
 
+func nonEmpty(l []string) []string {
+	var out []string
+	for _, s := range l {
+		if s != "" {
+			out = append(out, s)
+		}
+	}
+	return out
+}
+
 func normDesc(s string) string {
 	return strings.TrimSpace(s) // the text behind the '#', without it: an indented '#' is no part of the description
 }
@@ -214,8 +224,12 @@ func runC13(ctx *core.Ctx, idx int) *core.Result {
 		}
 		if r.Intn(2) == 0 {
 			c.Comments = []string{"desc " + fmt.Sprint(r.Intn(100))}
-			if r.Intn(2) == 0 {
+			switch r.Intn(4) {
+			case 0:
 				c.Comments = append(c.Comments, "second line")
+			case 1:
+				// two paragraphs with an empty '#' line between them
+				c.Comments = append(c.Comments, "", "second paragraph "+fmt.Sprint(r.Intn(100)))
 			}
 		}
 		if _, err := c.RefPattern(); err != nil {
@@ -352,6 +366,8 @@ func runC13(ctx *core.Ctx, idx int) *core.Result {
 				for _, d := range v.descs {
 					want = append(want, normDesc(d))
 				}
+				// an empty '#' line says nothing: whether it is echoed is not part of the description
+				got, want = nonEmpty(got), nonEmpty(want)
 				if cr.Exit != 0 || (v.descs != nil && strings.Join(got, "|") != strings.Join(want, "|")) {
 					res.Violate("C13/description-mismatch", fmt.Sprintf("[%s] exit %d, stderr descriptions %q, expected %q", v.word, cr.Exit, got, want),
 						map[string]string{"p.patch": v.text, "in.go": srcs[i], "stderr.txt": string(cr.Stderr)})
